@@ -706,6 +706,17 @@ def _vec_resize(it, key, raw, args):
     return UNIT
 
 
+@model('Vec::split_off')
+def _vec_split_off(it, key, raw, args):
+    v = deref(args[0])
+    n = it.concretize(args[1], 0, len(v.cells) + 1)
+    if n is None:
+        raise Panic('split_off out of bounds')
+    tail = v.cells[n:]
+    del v.cells[n:]
+    return VecV(tail)
+
+
 @model('Vec::append')
 def _vec_append(it, key, raw, args):
     a, b = deref(args[0]), deref(args[1])
@@ -1900,7 +1911,7 @@ def _as_ref(it, key, raw, args):
 
 
 # ================================================================= fmt / panics / strings
-@model('fmt::format', 'Arguments::new_const', 'Arguments::new_v1', 'Arguments::new_v1_formatted', 'Arguments::new',
+@model('fmt::format', 'format', 'Arguments::new_const', 'Arguments::new_v1', 'Arguments::new_v1_formatted', 'Arguments::new',
        'Argument::new_display', 'Argument::new_debug', 'Argument::new_lower_hex', 'Argument::new_upper_hex',
        'Arguments::from_str', 'Arguments::from_str_nonconst', 'Arguments::as_statically_known_str',
        'fmt::format_inner', 'Argument::new_debug_noop')
@@ -1997,3 +2008,31 @@ def _intrinsic_nop(it, key, raw, args):
     if raw.endswith('likely'):
         return args[0]
     return UNIT
+
+
+# ----- structural fallbacks for foreign types (what #[derive(PartialEq, PartialOrd, Ord)] yields on the model's
+# representation); crate types are resolved to their own MIR bodies before these are consulted
+@model('<* as PartialEq>::eq')
+def _any_eq(it, key, raw, args):
+    return values_eq(it, args[0], args[1])
+
+
+@model('<* as PartialEq>::ne')
+def _any_ne(it, key, raw, args):
+    return b_not(values_eq(it, args[0], args[1]))
+
+
+for _op in ('lt', 'le', 'gt', 'ge'):
+    MODELS['<* as PartialOrd>::%s' % _op] = (lambda op: lambda it, key, raw, args: lex_cmp(it, args[0], args[1], op))(_op)
+
+
+@model('<* as Ord>::cmp')
+def _any_cmp(it, key, raw, args):
+    from .models_coll import cmp_values
+    return Agg('Ordering', [], cmp_values(it, args[0], args[1]))
+
+
+@model('<* as PartialOrd>::partial_cmp')
+def _any_partial_cmp(it, key, raw, args):
+    from .models_coll import cmp_values
+    return some(Agg('Ordering', [], cmp_values(it, args[0], args[1])))
